@@ -959,3 +959,81 @@ def spec_value_sources(fns, consts):
 
 SPECS["C06"].append(spec_value_sources)
 SPECS["C03"].append(spec_value_sources)
+
+
+# ------------------------------------------------------------------ C07: the per-action reaction
+
+def spec_react_actions(fns, consts):
+    """Parser::react, every return path (loops cut), classified by the action's discriminant:
+    Set / SetTrue / SetFalse report ArgumentConflict exactly when an earlier occurrence was removed and
+    neither args_override_self nor a self-override is declared (otherwise last wins); Append never
+    removes earlier occurrences; Count computes `existing.saturating_add(1)`; SetTrue / SetFalse fill in
+    "true" / "false" for an occurrence without a value."""
+    con = contracts.Contracts(fns, default_pure=True)
+    ctx = symex.Ctx(consts, con)
+    fn = _find(fns, "parser/parser.rs", "react")
+    ex = symex.Exec(ctx, fn, [("opq", "self"), ("opq", "ident"), ("opq", "source"), ("opq", "arg"), ("opq", "raw_vals"), ("opq", "trailing_idx"), ("opq", "matcher")])
+    ex.run(havoc_unassigned=True, cut_loops=True)
+    dk = [k for k in ctx.keys if k == "discr(Arg::get_action(arg))"]
+    if len(dk) != 1:
+        raise Unsupported("react: the action is not matched on exactly once")
+    d = ctx.keys[dk[0]]
+    obs = []
+    seen = {"conflict": 0, "lastwins": 0, "append": 0, "count": 0, "true": 0, "false": 0}
+    names = {0: "Set", 1: "Append", 2: "SetTrue", 3: "SetFalse", 4: "Count"}
+
+    def sym_in(pc, rx):
+        ks = [ctx.keys[k] for k in ctx.keys if re.search(rx, k)]
+        return [s for s in ks if any(re.search(r"(^|[ (])" + re.escape(s) + r"($|[ )])", c) for c in pc)]
+    for (pc, val), ca in zip(ex.returns, ex.return_callargs):
+        act = None
+        for c in pc:
+            m = re.match(r"^\(= " + re.escape(d) + r" \(_ bv(\d+) 64\)\)$", c)
+            if m:
+                act = int(m.group(1))
+        if act not in names:
+            continue
+        callees = [c[0] for c in ca]
+        removed = any(re.search(r"ArgMatcher::remove$", c) for c in callees)
+        conflict = any(re.search(r"Error(::<[^>]*>)?::argument_conflict$", c) for c in callees)
+        tag = names[act]
+        if act in (0, 2, 3):
+            rm = sym_in(pc, r"^ArgMatcher::remove\(")
+            aos = sym_in(pc, r"Command::is_args_override_self\(")
+            cont = sym_in(pc, r"::contains\(")
+            if conflict:
+                seen["conflict"] += 1
+                if len(rm) == 1 and len(aos) == 1 and len(cont) == 1:
+                    neg = f"(not (and {rm[0]} (not {aos[0]}) (not {cont[0]})))"
+                else:
+                    neg = "true"
+                obs.append({"fn": fn.name, "block": "ret", "kind": "spec", "target": "react_actions", "msg": f"{tag}: a repeat is a conflict only if an earlier occurrence existed and self-override is off",
+                            "pc": list(pc), "neg": neg})
+            elif removed and val[0] == "enum" and val[1] == "Ok":
+                seen["lastwins"] += 1
+                neg = f"(and {rm[0]} (not {aos[0]}) (not {cont[0]}))" if (len(rm) == 1 and len(aos) == 1 and len(cont) == 1) else "false"
+                obs.append({"fn": fn.name, "block": "ret", "kind": "spec", "target": "react_actions", "msg": f"{tag}: a repeat without self-override is never silently accepted",
+                            "pc": list(pc), "neg": neg})
+        if act == 1:
+            seen["append"] += 1
+            obs.append({"fn": fn.name, "block": "ret", "kind": "spec", "target": "react_actions", "msg": "Append keeps earlier occurrences (nothing is removed)", "pc": list(pc), "neg": "true" if removed else "false"})
+        if act == 4:
+            adds = [c for c in ca if re.search(r"(saturating_add|wrapping_add|checked_add|overflowing_add)$", c[0])]
+            if adds:
+                seen["count"] += 1
+                ok = all(re.search(r"<impl u8>::saturating_add$", c[0]) and c[1][-1] == "(_ bv1 8)" for c in adds)
+                obs.append({"fn": fn.name, "block": "ret", "kind": "spec", "target": "react_actions", "msg": "Count: next = existing.saturating_add(1) (saturates at 255)", "pc": list(pc), "neg": "false" if ok else "true"})
+        lits = [a for c in ca for a in c[1] if a in ('str:"true"', 'str:"false"')]
+        for lit in lits:
+            want = {2: 'str:"true"', 3: 'str:"false"'}.get(act)
+            seen["true" if lit == 'str:"true"' else "false"] += 1
+            obs.append({"fn": fn.name, "block": "ret", "kind": "spec", "target": "react_actions", "msg": f"{tag}: an occurrence without a value means {want}", "pc": list(pc), "neg": "false" if lit == want else "true"})
+    missing = [k for k, v in seen.items() if v == 0]
+    if missing:
+        obs.append({"fn": fn.name, "block": "shape", "kind": "spec", "target": "react_actions", "msg": f"react no longer has the reference shape: no path for {missing}", "pc": [], "neg": "true"})
+    for o in obs:
+        o.setdefault("target", "react_actions")
+    return ctx, obs, [_enc(fn, ex, len(ex.returns))], con
+
+
+SPECS["C07"] = [spec_react_actions]
